@@ -112,4 +112,8 @@ theorem c20_reset_shape_atomic : isAtomicReset Gen.Shapes.resetUint64 = true := 
 
 example : (drun {} [.inc, .inc, .dump, .inc, .dump, .inc]).dumps = [2, 1] := by decide
 
+/-- every counter update of AppStats in the current tree (regenerated list) is a single atomic
+    add: the increments the conservation statements count cannot be lost between a load and a store -/
+theorem c20_counter_updates_atomic : Gen.Shapes.statsCounterOps.all Sched.isAtomicCounterOp = true := by decide
+
 end KsVerif.Proofs.C20
